@@ -58,6 +58,8 @@ type resolver struct {
 	loadedModules  map[string]*Module
 	// modules whose imports are being resolved right now: importing one of them is a cycle
 	resolving map[string]bool
+	// submodules already merged into a module: submodules may include each other
+	included map[*Module]map[string]bool
 	trace     bool
 }
 
@@ -224,6 +226,17 @@ func (r *resolver) copyOverIncludes(main *Module, includes []*Include) error {
 		if i.rev != nil {
 			rev = i.rev.Ident()
 		}
+		if r.included == nil {
+			r.included = make(map[*Module]map[string]bool)
+		}
+		if r.included[main] == nil {
+			r.included[main] = make(map[string]bool)
+		}
+		if r.included[main][i.subName] {
+			// merged already: submodules that include each other (or themselves) are taken once
+			continue
+		}
+		r.included[main][i.subName] = true
 		sub, err := i.loader(i.parent, i.subName, rev, i.parent.featureSet, i.loader)
 		if err != nil {
 			return errors.New(i.subName + " - " + err.Error())
